@@ -8,6 +8,7 @@ import json
 import warnings
 
 import wn
+import wn.taxonomy
 
 from harness import lmfgen
 from harness.worlds import World
@@ -126,7 +127,7 @@ def battery(tables, cfg, want, argsets):
         for s in str(c.message).split(': ', 1)[-1].split()))
     if st != 'ok':
         o.update({'lexicons': [], 'expanded': [], 'W': [], 'S': [], 'Y': [], 'desc': [], 'A': [], 'ident': [],
-                  'LK': [], 'mlists': [], 'RT': [],
+                  'LK': [], 'mlists': [], 'RT': [], 'TX': [],
                   'TS': [], 'TW': [],
                   'words': [], 'senses': [], 'synsets': []})
         return o
@@ -166,6 +167,9 @@ def battery(tables, cfg, want, argsets):
         for i in ids[kind]:
             o['LK'].append([kind, i, one(call(getattr(w, kind), i)),
                             one(call(getattr(wn, kind), i, **mkw))])
+    # roots / leaves per part of speech (a and s are merged by the taxonomy functions)
+    o['TX'] = [[pos, names(call(wn.taxonomy.roots, w, pos)), names(call(wn.taxonomy.leaves, w, pos))]
+               for pos in ('n', 'v', 'a', 's')]
     o['mlists'] = [names(call(wn.words, **mkw)), names(call(wn.senses, **mkw)),
                    names(call(wn.synsets, **mkw))]
     # entities found by a form search (exactly, and only after normalisation) are the same
